@@ -2,6 +2,7 @@ package compiler
 
 import (
 	"fmt"
+	"strings"
 
 	"github.com/grafana/cog/internal/ast"
 	"github.com/grafana/cog/internal/tools"
@@ -27,14 +28,14 @@ func (pass *SanitizeEnumMemberNames) processEnum(_ *Visitor, _ *ast.Schema, def 
 }
 
 func (pass *SanitizeEnumMemberNames) sanitizeEnumMember(member ast.EnumValue) ast.EnumValue {
-	if member.Type.Scalar.ScalarKind == ast.KindString && member.Name == "" && member.Value.(string) == "" {
+	if member.Type.Scalar.ScalarKind == ast.KindString && member.Name == "" && member.Value == "" {
 		member.Name = "None"
 	}
 
-	if member.Name[0] == '-' {
+	if strings.HasPrefix(member.Name, "-") {
 		member.Name = tools.UpperCamelCase(fmt.Sprintf("negative%s", member.Name[1:]))
 	}
-	if member.Name[0] == '+' {
+	if strings.HasPrefix(member.Name, "+") {
 		member.Name = tools.UpperCamelCase(fmt.Sprintf("positive%s", member.Name[1:]))
 	}
 
